@@ -108,8 +108,24 @@ static void header_text(int pgno, uint8_t out[32]) {
 }
 
 static void gen_row(Rng& r, int style, uint8_t out[40]) {
-  // styles: 0 plain text, 1 attributes mix, 2 mosaics, 3 sizes, 4 boxes, 5 everything
-  for (int c = 0; c < 40; c++) {
+  // styles: 0 plain text, 1 attributes mix, 2 mosaics, 3 sizes, 4 boxes, 5 everything,
+  // 6 hold mosaics in effect BEFORE the first mosaic character of the row (EN 300 706 12.2: the held mosaic is a
+  //   space at the start of every row, whatever earlier rows showed), then mosaics as in style 2
+  int c0 = 0;
+  if (style == 6) {
+    static const int keep[] = {0x10,0x11,0x12,0x13,0x14,0x15,0x16,0x17,0x1D,0x1C,0x18,0x08,0x09,0x19,0x1A,0x1E};  // leave mosaic mode and size alone
+    static const int any[] = {0x10,0x13,0x17,0x1D,0x07,0x02,0x0C,0x0D,0x1E,0x1A};                                   // incl. alpha colour / size changes
+    int lead = (int)r.below(3);                      // 0-2 characters in front (alpha mode: letters)
+    for (int i = 0; i < lead; i++) out[c0++] = (uint8_t)(r.chance(1, 2) ? 0x20 : 0x41 + r.below(26));
+    if (r.chance(1, 2)) { out[c0++] = (uint8_t)(0x10 + r.below(8)); out[c0++] = 0x1E; }   // mosaic colour, hold
+    else { out[c0++] = 0x1E; out[c0++] = (uint8_t)(0x10 + r.below(8)); }                   // hold, mosaic colour
+    int n = 1 + (int)r.below(5);
+    bool wild = r.chance(1, 4);
+    for (int i = 0; i < n; i++) out[c0++] = (uint8_t)(wild ? any[r.below(sizeof any / sizeof any[0])] : keep[r.below(sizeof keep / sizeof keep[0])]);
+    out[c0++] = (uint8_t)((0x20 + r.below(0x20)) | (r.chance(1, 2) ? 0x40 : 0) | (r.chance(7, 8) ? 1 : 0));  // a mosaic, mostly non-blank
+    style = 2;
+  }
+  for (int c = c0; c < 40; c++) {
     int ch;
     bool ctl = false;
     switch (style) {
@@ -131,6 +147,28 @@ static void gen_row(Rng& r, int style, uint8_t out[40]) {
   }
 }
 
+// probe: the row displays a spacing attribute with hold mosaics in effect in mosaic mode before its first mosaic character
+static bool row_holds_before_first_mosaic(const uint8_t ch[40]) {
+  bool hold = false, mosaic = false;
+  for (int c = 0; c < 40; c++) {
+    int raw = ch[c] & 0x7F;
+    if (raw == 0x1E) hold = true;
+    if (raw < 0x20) { if (hold && mosaic) return true; }
+    else if (mosaic && (raw & 0x20)) return false;
+    if (raw <= 0x07) mosaic = false; else if (raw >= 0x10 && raw <= 0x17) mosaic = true; else if (raw == 0x1F) hold = false;
+  }
+  return false;
+}
+static bool row_has_mosaic_pattern(const uint8_t ch[40]) {
+  bool mosaic = false;
+  for (int c = 0; c < 40; c++) {
+    int raw = ch[c] & 0x7F;
+    if (raw >= 0x20) { if (mosaic && (raw & 0x20) && raw != 0x20) return true; }
+    else if (raw <= 0x07) mosaic = false; else if (raw >= 0x10 && raw <= 0x17) mosaic = true;
+  }
+  return false;
+}
+
 // =============================================================== C02 ==========
 struct C02 : World, TtxWorldBase {
   const char* name() const override { return "c02"; }
@@ -149,12 +187,23 @@ struct C02 : World, TtxWorldBase {
     // per magazine a small carousel so that pages are retransmitted (update histories)
     int car[8][4];
     for (int m = 0; m < 8; m++) for (int k = 0; k < 4; k++) car[m][k] = (int)r.below(99);
+    // time filling headers (page number xFF, EN 300 706 9.3.1.3): legal headers which terminate the page in progress
+    // like any other header and never are a page themselves.  Swarm: none / few / many; in the magazines that carry
+    // pages, in otherwise unused magazines, or both.
+    int fill_pct = (int)r.below(3) == 0 ? 0 : (r.chance(1, 2) ? 8 : 30);
+    int fill_where = (int)r.below(3);  // 0 any of the eight magazines, 1 only magazines without pages (if any), 2 only magazines with pages
     for (int i = 0; i < total; i++) {
+      if (fill_pct && (int)r.below(100) < fill_pct) {
+        Op f; f.kind = "filler";
+        f.task = fill_where == 2 ? (int)r.below((uint64_t)nmag) : fill_where == 1 && nmag < 8 ? nmag + (int)r.below((uint64_t)(8 - nmag)) : (int)r.below(8);
+        f.a = {(int64_t)r.below(4), (int64_t)r.below(2), (int64_t)r.below(8)};  // subcode variant, erase flag, national option
+        p.ops.push_back(f);
+      }
       Op o; o.task = (int)r.below((uint64_t)nmag); o.kind = "page";
       int pg = car[o.task][r.below(1 + r.below(4))];
       int sub = r.chance(1, 2) ? 0 : 1 + (int)r.below(r.chance(1, 4) ? 79 : 3);
       int flags = (int)r.below(16);  // bit0 X/27/0, bit1 link control "row 24", bit2 send row 24, bit3 rows in random order
-      o.a = {pg, sub, (int64_t)r.below(8), r.chance(1, 3) ? 1 : 0, (int64_t)r.below(1u << 30), flags, (int64_t)r.below(6)};
+      o.a = {pg, sub, (int64_t)r.below(8), r.chance(1, 3) ? 1 : 0, (int64_t)r.below(1u << 30), flags, (int64_t)r.below(7)};
       p.ops.push_back(o);
     }
     return p;
@@ -163,7 +212,7 @@ struct C02 : World, TtxWorldBase {
   // model
   std::map<int, StoredPage> store;  // key pgno<<8 | subkey
   OpenPage open_[8];
-  int checked_pages = 0, interleaved = 0, updates = 0;
+  int checked_pages = 0, interleaved = 0, updates = 0, fillers = 0, fillers_unused = 0, fillers_closing = 0, fillers_serial_foreign = 0, hold_rows = 0, hold_rows_after_mosaic = 0;
   int last_mag = -1;
 
   void on_event(int pgno, int subno) override {
@@ -267,13 +316,14 @@ struct C02 : World, TtxWorldBase {
     ctx = &c; g = this;
     store.clear(); events.clear(); frame.clear(); ts = 5000.0;
     for (auto& o : open_) o = OpenPage();
-    checked_pages = interleaved = updates = 0; last_mag = -1;
+    checked_pages = interleaved = updates = fillers = fillers_unused = fillers_closing = fillers_serial_foreign = hold_rows = hold_rows_after_mosaic = 0; last_mag = -1;
     frame_max = (int)(plan.knob("frame_max", 4) % 17); if (frame_max < 1) frame_max = 1;
     bool serial = plan.knob("serial") & 1;
     Sched sched(c, (uint64_t)plan.knob("sched_seed", (int64_t)plan.seed), (Policy)(plan.knob("policy") % 3), (int)plan.knob("pparam"));
     open_decoder();
     std::vector<std::vector<const Op*>> per(8);
-    for (auto& op : plan.ops) if (op.kind == "page") per[(size_t)(((op.task % 8) + 8) % 8)].push_back(&op);
+    bool has_pages[8] = {false, false, false, false, false, false, false, false};
+    for (auto& op : plan.ops) if (op.kind == "page" || op.kind == "filler") { size_t t = (size_t)(((op.task % 8) + 8) % 8); per[t].push_back(&op); if (op.kind == "page") has_pages[t] = true; }
     int owner = -1; std::vector<Task*> waiters;
     auto page_begin = [&](int me) { while (serial && owner != -1 && owner != me && !c.failed) { waiters.push_back(sched.current()); sched.block(); } owner = me; };
     auto page_end = [&] { owner = -1; for (Task* t : waiters) sched.wake(t); waiters.clear(); };
@@ -308,8 +358,33 @@ struct C02 : World, TtxWorldBase {
           bool taint = o.open && o.tainted;
           o = OpenPage(); o.open = true; o.pgno = pgno; o.subno = subno; o.nat = nat; o.erase = erase; o.tainted = taint; memcpy(o.text, text, 32);
         };
+        // time filling header mFF: a header like any other (it terminates the page in progress of its magazine; in
+        // serial mode the decoder may complete pages of other magazines earlier), but it opens no page
+        auto send_filler = [&](int variant, bool erase, int nat) {
+          uint8_t text[32]; header_text(mag * 256 + 0xFF, text);
+          static const int subs[4] = {0x3F7F, 0, 0x0001, 0x2359};
+          unsigned ctrl = ttx::ctrl_national(nat) | (erase ? ttx::C4_ERASE : 0) | (serial ? ttx::C11_SERIAL : 0);
+          ttx::Packet h = ttx::header(mag, 0xFF, subs[variant & 3], ctrl, text);
+          fillers++;
+          if (!has_pages[m]) fillers_unused++;
+          if (serial && !has_pages[m]) for (int x = 0; x < 8; x++) if (x != m && open_[x].open && open_[x].events == 0) { fillers_serial_foreign++; break; }
+          c.log("tx mag %d filler header", mag);
+          emit(m, h);
+          flush();
+          OpenPage& o = open_[m];
+          if (o.open) { fillers_closing++; terminate(m); }
+          o = OpenPage();
+        };
         for (const Op* op : per[(size_t)m]) {
           if (c.failed) return;
+          if (op->kind == "filler") {
+            page_begin(m);
+            send_filler((int)(llabs(op->arg(0)) % 4), op->arg(1) & 1, (int)(llabs(op->arg(2)) % 8));
+            page_end();
+            prev_page = -1;  // P, filler, P again are two transmissions of P, each terminated by a header with another number
+            sched.yield();
+            continue;
+          }
           int page = to_bcd((int)(llabs(op->arg(0)) % 99));
           if (page == prev_page) page = to_bcd((int)((llabs(op->arg(0)) + 1) % 99));
           prev_page = page;
@@ -330,7 +405,8 @@ struct C02 : World, TtxWorldBase {
           for (int y = 1; y <= 23; y++) if (density == 3 || r.below(4) <= (uint64_t)density) ys.push_back(y);
           if (flags & 4) ys.push_back(24);
           if (flags & 8) for (size_t i = ys.size(); i > 1; i--) std::swap(ys[i - 1], ys[r.below(i)]);
-          int style = (int)(llabs(op->arg(6)) % 6);
+          int style = (int)(llabs(op->arg(6)) % 7);
+          bool mosaic_above = false;
           size_t x27_at = (flags & 1) ? r.below(ys.size() + 1) : (size_t)-1;
           OpenPage& o = open_[m];
           for (size_t i = 0; i <= ys.size(); i++) {
@@ -347,6 +423,8 @@ struct C02 : World, TtxWorldBase {
             if (i == ys.size()) break;
             uint8_t chars[40];
             gen_row(r, r.chance(1, 3) ? (int)r.below(6) : style, chars);
+            if (row_holds_before_first_mosaic(chars)) { hold_rows++; if (mosaic_above) hold_rows_after_mosaic++; }
+            if (row_has_mosaic_pattern(chars)) mosaic_above = true;
             emit(m, ttx::row(mag, ys[i], chars));
             o.rows[ys[i]] = std::vector<uint8_t>(chars, chars + 40);
             sched.yield();
@@ -355,6 +433,7 @@ struct C02 : World, TtxWorldBase {
           sched.yield();
         }
         // trailing header so that the last page of this magazine is terminated too
+        if (!open_[m].open) return;
         page_begin(m);
         send_header(prev_page == 0x98 ? 0x97 : 0x98, 0, 0, true);
         page_end();
@@ -370,6 +449,12 @@ struct C02 : World, TtxWorldBase {
     c.count("pages_checked", checked_pages);
     c.count("page_updates_no_erase", updates);
     c.count("magazine_switches", interleaved);
+    c.count("filler_headers", fillers);
+    c.count("filler_headers_in_unused_magazine", fillers_unused);
+    c.count("filler_headers_terminating_a_page", fillers_closing);
+    c.count("filler_headers_unused_magazine_serial_other_page_pending", fillers_serial_foreign);
+    c.count("rows_hold_before_first_mosaic", hold_rows);
+    c.count("rows_hold_before_first_mosaic_below_mosaic_row", hold_rows_after_mosaic);
     c.nontrivial = checked_pages >= 3 && interleaved >= 2;
     c.sim_seconds = ts - 5000.0;
     g = nullptr;
